@@ -18,6 +18,7 @@ TRANSFORMS = [
     "`debug_assert!(e);` -> `assert(e);` (same obligation, Verus spelling) when option debug_assert=verus is given",
     "items (struct/const/type): attributes dropped except that `#[derive(.. Clone, Copy ..)]` is re-emitted as `#[derive(Clone, Copy)]`, visibility normalised to `pub`; with option `limbs`, a const initialised by `T::w64be(l3,l2,l1,l0)` / `T::w64le(l0,l1,l2,l3)` with four literal limbs is rewritten to the tuple-struct literal `GF255([l0,l1,l2,l3])` (w64be/w64le are proved in the same unit to build exactly that array)",
     "anonymous loop pattern: `for _ in <range>` -> `for vloop<k> in <range>` (k-th such loop of the function) so that a loop invariant can name the counter",
+    "only with option `revloops=<T>` (this Verus has no specification for Rev<Range>): `for v in (a..b).rev() {` -> `let mut vrev<k>: T = b; while vrev<k> > a { vrev<k> = vrev<k> - 1; let v = vrev<k>;` (k-th such loop; a, b are the literal or identifier bounds as written; the loop body is unchanged; same iteration sequence b-1, b-2, .., a)",
 ]
 
 # ---------------------------------------------------------------- tokenizer
@@ -439,7 +440,7 @@ class Woven:
         self.name = name
 
 
-def normalise_fn(fn_src, cfg, rename=None, ret_name=None, debug_assert_verus=True, vis="pub "):
+def normalise_fn(fn_src, cfg, rename=None, ret_name=None, debug_assert_verus=True, vis="pub ", revloops=None):
     """Apply the TRANSFORMS to a raw fn slice; returns (text, undo) where undo
     is info the erasure check needs."""
     s = resolve_cfg(fn_src, cfg)
@@ -485,6 +486,14 @@ def normalise_fn(fn_src, cfg, rename=None, ret_name=None, debug_assert_verus=Tru
         cnt[0] += 1
         return "for vloop%d in" % (cnt[0] - 1)
     s = re.sub(r'\bfor\s+_\s+in\b', _nm, s)
+    if revloops:
+        rc = [0]
+        def _rv(m):
+            k = rc[0]
+            rc[0] += 1
+            return "let mut vrev%d: %s = %s; while vrev%d > %s { vrev%d = vrev%d - 1; let %s = vrev%d;" % (
+                k, revloops, m.group(3), k, m.group(2), k, k, m.group(1), k)
+        s = re.sub(r'\bfor\s+(\w+)\s+in\s+\(\s*(\w+)\s*\.\.\s*(\w+)\s*\)\s*\.\s*rev\s*\(\s*\)\s*\{', _rv, s)
     return s, orig_name
 
 
@@ -494,7 +503,7 @@ def erase_tokens(fn_text):
     return [t.text for t in tokenize('\n'.join(lines))]
 
 
-def source_tokens(fn_src, cfg, rename=None, ret_name=None, debug_assert_verus=True, vis="pub "):
+def source_tokens(fn_src, cfg, rename=None, ret_name=None, debug_assert_verus=True, vis="pub ", revloops=None):
     """Tokens the erasure check expects: the raw slice with the documented
     transformations applied mechanically *on tokens* (independent code path
     from normalise_fn's text surgery)."""
@@ -529,6 +538,24 @@ def source_tokens(fn_src, cfg, rename=None, ret_name=None, debug_assert_verus=Tr
         if toks[i] == 'for' and toks[i + 1] == '_' and toks[i + 2] == 'in':
             toks[i + 1] = 'vloop%d' % k
             k += 1
+    if revloops:
+        out = []
+        i = 0
+        k = 0
+        while i < len(toks):
+            if (toks[i] == 'for' and i + 12 < len(toks) and toks[i + 2] == 'in' and toks[i + 3] == '(' and toks[i + 5] == '..'
+                    and toks[i + 7] == ')' and toks[i + 8] == '.' and toks[i + 9] == 'rev' and toks[i + 10] == '('
+                    and toks[i + 11] == ')' and toks[i + 12] == '{'):
+                v, a, b = toks[i + 1], toks[i + 4], toks[i + 6]
+                n = 'vrev%d' % k
+                k += 1
+                out += ['let', 'mut', n, ':', revloops, '=', b, ';', 'while', n, '>', a, '{', n, '=', n, '-', '1', ';',
+                        'let', v, '=', n, ';']
+                i += 13
+            else:
+                out.append(toks[i])
+                i += 1
+        toks = out
     return toks
 
 
